@@ -15,7 +15,8 @@ namespace Server
 
 theorem bad_parts {p : Params} {x : State} (h : bad p x = false) :
     x.fault.is .none = true ∧ afterShutdownBad x = false ∧ goroutinesBad p x = false ∧
-    x.c0.hooksBad = false ∧ x.c1.hooksBad = false ∧ Nat.beq x.wg.toNat (wgExpected x) = true := by
+    x.c0.hooksBad = false ∧ x.c1.hooksBad = false ∧ Nat.beq x.wg.toNat (wgExpected x) = true ∧
+    graceBad x = false ∧ rwLateBad p x = false := by
   simpa [bad, Bool.or_eq_false_iff, and_assoc] using h
 
 /-- the connection `o` occupies one of the two slots. -/
@@ -26,6 +27,34 @@ theorem keeps_setConns (x : State) (a o : Conn) : Keeps o (x.setConns a o) := by
   cases Nat.ble a.code o.code <;> simp
 
 theorem keeps_setFault {x : State} {o : Conn} (f : Fault) (h : Keeps o x) : Keeps o (x.setFault f) := h
+
+@[simp] theorem setConns_fault (x : State) (a b : Conn) : (x.setConns a b).fault = x.fault := by
+  unfold State.setConns; cases Nat.ble a.code b.code <;> rfl
+
+@[simp] theorem setConns_wg (x : State) (a b : Conn) : (x.setConns a b).wg = x.wg := by
+  unfold State.setConns; cases Nat.ble a.code b.code <;> rfl
+
+/-- what a step of a connection does to the shared state and which event it is. -/
+def shared (e : Ev × State) : Ev × Fault × Wg := (e.1, e.2.fault, e.2.wg)
+
+/-- the steps of a connection, as far as the shared state and the events go, do not depend on the
+    OTHER connection at all. -/
+theorem conn_shared_indep (p : Params) (x : State) (c o o' : Conn) :
+    (conn p x c o).map shared = (conn p x c o').map shared := by
+  cases hpc : c.pc <;> simp only [conn, hpc, List.map_nil]
+  case started => simp [cStarted, shared]
+  case idle => cases hb : (x.recvCtx || x.srvCtx) <;> simp [cIdle, shared, hb]
+  case busy => simp [cBusy, shared]
+  case busySlow =>
+    cases hb : x.srvCtx <;> cases hf : x.tm.is .fired <;> simp [cBusySlow, shared, hb, hf, State.setFault]
+  case sending =>
+    cases hb : x.srvCtx <;> cases hf : x.tm.is .fired <;> simp [cSending, shared, hb, hf, State.setFault]
+  case leaving =>
+    cases hk : c.hookOk <;> cases ht : c.termRan <;> simp [cLeave, shared, hk, ht, State.setFault]
+  case closing =>
+    cases p.closeWaits <;> simp [shared, cClose]
+  case winding => simp [shared]
+  case finishing => simp [shared, cFinish]
 
 theorem keeps_wgDone {x : State} {o : Conn} (h : Keeps o x) : Keeps o x.wgDone := by
   unfold State.wgDone
@@ -39,8 +68,8 @@ theorem keeps_wgDone_setConns (x : State) (a o : Conn) : Keeps o ((x.wgDone).set
     per-connection model (`Kmip.C08.isolation`) this is why the per-connection obligations do not
     depend on how many connections there are: connections interact only through `wg` (`Add` by the
     accept loop, `Done` once by each owner) and the shared monotone contexts. -/
-theorem conn_isolated (x : State) (c o : Conn) (h : Keeps o x) :
-    ∀ e ∈ conn x c o, Keeps o e.2 := by
+theorem conn_isolated (p : Params) (x : State) (c o : Conn) (h : Keeps o x) :
+    ∀ e ∈ conn p x c o, Keeps o e.2 := by
   intro e he
   unfold conn at he
   cases hpc : c.pc <;> simp only [hpc] at he
@@ -60,7 +89,21 @@ theorem conn_isolated (x : State) (c o : Conn) (h : Keeps o x) :
       rw [he]; exact keeps_setConns _ _ _
   case busy =>
     simp only [cBusy, List.mem_cons, List.mem_nil_iff, or_false] at he
-    rcases he with rfl | rfl | rfl <;> exact keeps_setConns _ _ _
+    rcases he with rfl | rfl <;> exact keeps_setConns _ _ _
+  case sending =>
+    simp only [cSending, List.mem_append, List.mem_cons, List.mem_nil_iff, or_false] at he
+    rcases he with (rfl | rfl) | he
+    · exact keeps_setConns _ _ _
+    · exact keeps_setConns _ _ _
+    · cases hb : x.srvCtx <;> simp [hb] at he
+      rw [he]
+      cases x.tm.is .fired
+      · exact keeps_setFault _ h
+      · exact keeps_setConns _ _ _
+  case finishing =>
+    simp only [List.mem_cons, List.mem_nil_iff, or_false] at he
+    rw [he]
+    exact keeps_setConns _ _ _
   case busySlow =>
     simp only [cBusySlow, List.mem_append, List.mem_cons, List.mem_nil_iff, or_false] at he
     rcases he with he | rfl
@@ -80,9 +123,8 @@ theorem conn_isolated (x : State) (c o : Conn) (h : Keeps o x) :
       · exact keeps_setFault _ h
     · exact keeps_setConns _ _ _
   case closing =>
-    simp only [List.mem_cons, List.mem_nil_iff, or_false] at he
-    rw [he]
-    exact keeps_setConns _ _ _
+    cases hcw : p.closeWaits <;> simp only [hcw, cond_true, cond_false, List.mem_cons,
+      List.mem_nil_iff, or_false] at he <;> rw [he] <;> exact keeps_setConns _ _ _
   case winding =>
     simp only [List.mem_cons, List.mem_nil_iff, or_false] at he
     rw [he]
